@@ -653,6 +653,14 @@ fn convert_outstation_config(
     })
 }
 
+/// verif hook H7: the private configuration conversion, reachable from the binding harness
+#[cfg(dnp3_verif)]
+pub(crate) fn verif_convert_outstation_config(
+    config: ffi::OutstationConfig,
+) -> Result<OutstationConfig, ffi::ParamError> {
+    convert_outstation_config(config)
+}
+
 impl Listener<ConnectionState> for ffi::ConnectionStateListener {
     fn update(&mut self, value: ConnectionState) -> MaybeAsync<()> {
         self.on_change(value.into());
